@@ -68,7 +68,7 @@ Chk(e) == CASE e.op \in {"f.add", "f.sub", "f.mul"} -> ChkFBin(e)
             [] e.op \in TowerOps -> ChkTower(e)
 \* a panic or a hang of the code under test is never allowed; an unknown event is a tooling error and is reported too
 AllCovNames == CovNames \cup {"drift.same", "drift.diff", "drift.miller_g2.same", "drift.miller_g2.diff",
-                                "drift.miller_prepared.same", "drift.miller_prepared.diff"}
+                                "drift.miller_prepared.same", "drift.miller_prepared.diff", "drift.consts.same", "drift.consts.diff"}
 KnownAny(e) == Known(e) \/ e.op \in MachineOps
 Why(e) == IF ~KnownAny(e) THEN "unknown-op" ELSE IF e.panic THEN "panic" ELSE "mismatch"
 Init == tpos = 1 /\ tbad = <<>> /\ tm = [ok |-> TRUE, reg |-> <<>>] /\ tcov = [c \in AllCovNames |-> 0]
@@ -81,8 +81,8 @@ Next == /\ tpos <= Len(Rec)
         /\ tbad' = IF tm'.ok \/ Len(tbad) >= 200 THEN tbad
                    ELSE Append(tbad, [seq |-> Rec[tpos].seq, op |-> Rec[tpos].op, why |-> Why(Rec[tpos])])
         /\ tcov' = LET e == Rec[tpos]                                             \* input-class counters (coverage only, never a verdict)
-                   IN IF e.op \in ({"f.mul", "f.add", "f.sub", "f2.mul", "x.fq4.mul"} \cup DriftOps \cup {"x.miller"}) /\ ~e.panic /\ tm'.ok
-                      THEN LET cs == ClsOf(e) \cup DriftCls(e) \cup (IF e.op = "x.miller" THEN MillerDrift(e) ELSE {}) IN [c \in AllCovNames |-> IF c \in cs THEN tcov[c] + 1 ELSE tcov[c]]
+                   IN IF e.op \in ({"f.mul", "f.add", "f.sub", "f2.mul", "x.fq4.mul"} \cup DriftOps \cup {"x.miller", "x.consts"}) /\ ~e.panic /\ tm'.ok
+                      THEN LET cs == ClsOf(e) \cup DriftCls(e) \cup (IF e.op = "x.miller" THEN MillerDrift(e) ELSE {}) \cup (IF e.op = "x.consts" THEN ConstsDrift(e) ELSE {}) IN [c \in AllCovNames |-> IF c \in cs THEN tcov[c] + 1 ELSE tcov[c]]
                       ELSE tcov
 Done == tpos = Len(Rec) + 1 => PrintT(<<"DONE", ToJson([n |-> Len(Rec), consumed |-> tpos - 1, bad |-> tbad, cov |-> tcov])>>)
 =============================================================================
